@@ -54,6 +54,13 @@ def line_dense_logits(seed, frames, nsym, amb, value_range='std'):
                 x[t] += 63.0
             else:
                 x[t] = rs.uniform(-63.0, -54.0, size=nsym + 1)
+    if value_range == 'huge':
+        # unnormalised network outputs far beyond exp()'s float32 range (> 88.7) in hot frames, cold frames as above
+        for t in range(frames):
+            if rs.rand() < 0.5:
+                x[t] += 90.0
+            else:
+                x[t] = rs.uniform(-63.0, -54.0, size=nsym + 1)
     if value_range == 'flat':
         # nearly uniform posteriors: almost nothing is pruned, so the sparse matrix is nearly dense
         x = rs.uniform(-1.0, 1.0, size=(frames, nsym + 1))
